@@ -339,7 +339,8 @@ extern "C" fn k_close(fd: c_int) -> c_int {
 }
 
 /// kinds 0..=5 as in `op`; 6: the hooked close (syscall::close -> NioCloseSyscall -> raw close) on a live descriptor;
-/// 7: a readiness event for the descriptor is delivered through `select`.
+/// 7: a readiness event for the descriptor is delivered through `select`; 8 / 9: a wait for read / write readiness whose OS
+/// registration call is refused (one-shot fault injection of the mio model).
 /// `r0`/`w0`: which interests descriptor 0 (the one the operation addresses) has outstanding - CONCRETE per harness (4 x 8
 /// instances). With them symbolic, the model OS's answer to reregister/register is symbolic too, CBMC has to follow the
 /// `or_else(|_| register(..))` error path everywhere, and dropping the io::Error there (a `Box<dyn Error>` as far as the type
@@ -379,6 +380,14 @@ fn step(kind: u8, r0: bool, w0: bool) {
             let (_ev, n) = collect(&p);
             kani::assert(n <= 1, "at most one event for one ready descriptor");
             // delivering an event consumes waiting tokens, never an interest
+        }
+        8 | 9 => {
+            // the OS refuses the registration (EPERM for a regular file, EBADF for a closed number, ENOMEM ...): the wait fails
+            // and leaves NO interest behind - neither a record nor a registration - so that a later wait registers afresh
+            p.registry().verif_fail_next(libc::EPERM);
+            let r = if kind == 8 { p.add_read_event(FDS[i], token) } else { p.add_write_event(FDS[i], token) };
+            kani::assert(r.is_err(), "a wait fails when the OS refuses the registration");
+            core::mem::forget(r);
         }
         _ => op(&p, &mut g, kind, i, token),
     }
@@ -433,3 +442,7 @@ c21_step!(c21_step_event_delivered_from_none, 7, false, false);
 c21_step!(c21_step_event_delivered_from_read, 7, true, false);
 c21_step!(c21_step_event_delivered_from_write, 7, false, true);
 c21_step!(c21_step_event_delivered_from_both, 7, true, true);
+c21_step!(c21_step_wait_read_refused_by_the_os_from_none, 8, false, false);
+c21_step!(c21_step_wait_write_refused_by_the_os_from_none, 9, false, false);
+c21_step!(c21_step_wait_read_refused_by_the_os_from_write, 8, false, true);
+c21_step!(c21_step_wait_write_refused_by_the_os_from_read, 9, true, false);
